@@ -13,7 +13,7 @@ from . import watchdog, coredrv, tlc
 from . import world as W
 
 WORKER_VERBS = {"retr", "stor", "appe", "list", "mlsd"}
-SPEC_KF = {"abor-before-150", "close-waits-for-stalled-peer"}  # deviation actions FtpCore knows (constant KF)
+SPEC_KF = {"abor-before-150", "close-waits-for-stalled-peer", "user-overtakes-command"}  # deviation actions FtpCore knows (constant KF)
 
 
 class _Cap(logging.Handler):
